@@ -26,8 +26,9 @@ VERIF = os.path.dirname(os.path.dirname(os.path.abspath(__file__)))
 REPO = os.environ.get("VERIF_REPO", "/repo")
 LEAN_DIR = os.path.join(VERIF, "lean")
 DRIVER = os.path.join(LEAN_DIR, ".lake", "build", "bin", "spdriver")
-EVIDENCE_DIR = os.path.join(VERIF, "evidence")
-REPLAY_DIR = os.path.join(VERIF, "replays")
+# the two overrides exist for campaign tools that run many checks in parallel against scratch copies
+EVIDENCE_DIR = os.environ.get("VERIF_EVIDENCE_DIR") or os.path.join(VERIF, "evidence")
+REPLAY_DIR = os.environ.get("VERIF_REPLAY_DIR") or os.path.join(VERIF, "replays")
 KNOWN_FINDINGS = os.path.join(VERIF, "known_findings.json")
 
 # make sure the working tree of /repo is what gets imported
@@ -45,6 +46,27 @@ class InfraError(Exception):
 DOCUMENTED = {
     "value", "crc", "cfdp_version", "tlv_type", "uslp", "verif_params", "overflow", "file_not_found",
 }
+
+
+def exc_categories(exc: BaseException) -> List[str]:
+    """every documented category the exception belongs to (an exception class may be e.g. both a USLP
+    error and a ValueError subclass; a refusal counts as the class a property names if it is an
+    instance of it)"""
+    from spacepackets.ecss.tc import InvalidTcCrc16
+    from spacepackets.ecss.tm import InvalidTmCrc16
+    from spacepackets.cfdp.exceptions import InvalidCrc, TlvTypeMissmatch
+    from spacepackets.cfdp.defs import UnsupportedCfdpVersion
+    from spacepackets.ecss.pus_1_verification import InvalidVerifParams
+    import spacepackets.uslp.defs as ud
+
+    uslp = tuple(getattr(ud, n) for n in dir(ud) if n.startswith("Uslp") and isinstance(getattr(ud, n), type))
+    cats = []
+    for cat, classes in (("crc", (InvalidTcCrc16, InvalidTmCrc16, InvalidCrc)), ("cfdp_version", (UnsupportedCfdpVersion,)),
+                         ("tlv_type", (TlvTypeMissmatch,)), ("uslp", uslp), ("verif_params", (InvalidVerifParams,)),
+                         ("overflow", (OverflowError,)), ("file_not_found", (FileNotFoundError,)), ("value", (ValueError,))):
+        if classes and isinstance(exc, classes):
+            cats.append(cat)
+    return cats
 
 
 def exc_category(exc: BaseException) -> str:
@@ -178,6 +200,9 @@ def run_impl(ops: Dict[str, Callable], case: Case) -> Dict[str, Any]:
     except BaseException as e:  # noqa
         cat = exc_category(e)
         r = {"err": cat}
+        cats = exc_categories(e)
+        if len(cats) > 1:
+            r["errs"] = cats
         if cat not in DOCUMENTED:
             r["detail"] = f"{type(e).__name__}: {e}"[:300]
         return r
@@ -206,8 +231,9 @@ def run_driver(lines: List[str]) -> List[Dict[str, Any]]:
     res = []
     for i, l in enumerate(out):
         r = json.loads(l)
-        if "bad" in r:
-            raise InfraError(f"driver protocol error on line {i}: {r['bad']} :: {lines[i][:300]}")
+        # {"bad": ...}: the model op could not make sense of the line. Inputs are partly derived from the
+        # implementation under test (packed octets, decoded fields), so this is reported per case as a broken
+        # correspondence (see compare), not as an infrastructure failure of the whole run.
         res.append(r)
     return res
 
@@ -221,6 +247,10 @@ def restrict(payload: Any, keys: Optional[List[str]]) -> Any:
 def compare(case: Case, impl: Dict[str, Any], model: Dict[str, Any]) -> Optional[Violation]:
     """returns a Violation or None. `concrete` says whether the case itself is a failing input."""
     op = case.op
+    if "bad" in model:
+        return Violation("correspondence", op, model, impl, concrete=False, expect=case.expect,
+                         note="the model op cannot evaluate this line (it was derived from implementation output): "
+                              + str(model["bad"])[:300])
     if "selfcheck" in impl:
         return Violation("self_check", op, "property clause holds", impl["selfcheck"], expect=case.expect)
     impl_ok = "ok" in impl
@@ -232,7 +262,10 @@ def compare(case: Case, impl: Dict[str, Any], model: Dict[str, Any]) -> Optional
                          expect=case.expect)
     if case.expect == "valid":
         if not model_ok:
-            raise InfraError(f"generator produced a 'valid' case the model rejects: {op} -> {model}")
+            # the generator builds some 'valid' inputs with the implementation (pack, then decode): a model
+            # refusal then means the implementation produced something outside the property's domain
+            return Violation("correspondence", op, model, impl, concrete=False, expect=case.expect,
+                             note="an input generated as valid (possibly derived from implementation output) is refused by the model")
         if not impl_ok:
             return Violation("spec_mismatch", op, model, impl,
                              note="valid input rejected by the implementation", expect=case.expect)
@@ -244,11 +277,12 @@ def compare(case: Case, impl: Dict[str, Any], model: Dict[str, Any]) -> Optional
         return None
     if case.expect == "invalid":
         if model_ok:
-            raise InfraError(f"generator produced an 'invalid' case the model accepts: {op} -> {model}")
+            return Violation("correspondence", op, model, impl, concrete=False, expect=case.expect,
+                             note="an input generated as must-be-refused (possibly derived from implementation output) is accepted by the model")
         if impl_ok:
             return Violation("accepted_invalid", op, model, impl,
                              note="input that must be refused was accepted", expect=case.expect)
-        if case.errclass and impl["err"] != model["err"]:
+        if case.errclass and model["err"] not in impl.get("errs", [impl["err"]]):
             return Violation("spec_mismatch", op, model, impl,
                              note="refused with a different error class than the property names", expect=case.expect)
         return None
@@ -261,7 +295,7 @@ def compare(case: Case, impl: Dict[str, Any], model: Dict[str, Any]) -> Optional
         if a != b:
             return Violation("correspondence", op, model, impl, concrete=False,
                              note="decoded values differ between model and implementation", expect=case.expect)
-    elif case.errclass and impl["err"] != model["err"]:
+    elif case.errclass and model["err"] not in impl.get("errs", [impl["err"]]):
         return Violation("correspondence", op, model, impl, concrete=False,
                          note="error class differs", expect=case.expect)
     return None
